@@ -526,6 +526,7 @@ func TestConcHammer(t *testing.T) {
 		sum := atomic.Uint64{}
 		var rmu sync.Mutex
 		removed := []uint64{}
+		bads := []string{}
 		for g := 0; g < 16; g++ {
 			wg.Add(1)
 			go func() {
@@ -545,7 +546,9 @@ func TestConcHammer(t *testing.T) {
 						id := ls.FaceID()
 						table.Rib.AddEncRoute(nm(joinName(concPrefixes[rng.Intn(5)])), &table.Route{FaceID: id, Cost: 1, Flags: flagsOf(rng.Intn(2) == 0)})
 						if face.FaceTable.Get(id) == nil {
-							panic("a face that was just added is not in the face table")
+							rmu.Lock()
+							bads = append(bads, fmt.Sprint("face ", id, " was added and is not in the face table (somebody else's Remove took it: the id was handed out twice)"))
+							rmu.Unlock()
 						}
 						sum.Add(uint64(len(face.FaceTable.GetAll())))
 						face.FaceTable.Remove(id)
@@ -588,6 +591,9 @@ func TestConcHammer(t *testing.T) {
 		case <-finished:
 		case <-time.After(120 * time.Second):
 			t.Fatal("DEADLOCK: hammer goroutines did not finish within 120 s")
+		}
+		for _, b := range bads {
+			w.Emit(map[string]any{"ev": "bad", "what": b})
 		}
 		// quiescence: the FIB is what the routes prescribe, and nothing of a removed face is left
 		o := concObserve()
